@@ -8,7 +8,9 @@ CONSTANTS
 SPECIFICATION TSpec
 INVARIANT CachedEqualsRecomputed_KnownNoClearOnAddEdge
 INVARIANT CachedEqualsRecomputed_Other
+INVARIANT OfferedCompatibleHist
 INVARIANT Drift_Answer
 INVARIANT Drift_ReturnType
 INVARIANT Drift_Generators
 INVARIANT Drift_Final
+INVARIANT Drift_Table
